@@ -117,6 +117,11 @@ CHECKS = {
         text="The truth value of the recipe (computed in Python with exact rationals) must equal the truth value of the returned formula's dump and of every definite result.subs(assignment) on up to 64 assignments that realise every sign pattern of the atoms; Piecewise must select the branch of the first true condition. Exploration.",
         note="Assignments are real rationals; assignments where no Piecewise branch matches are skipped.",
         variants=["main"]),
+    "C09": dict(
+        engine="hy", technique="property-based testing: generated sum/product/integer-power trees; value oracle (mpmath at generated complex points), structural completeness walk over the raw dump, idempotence, and an independent Fraction polynomial model deciding identity on the polynomial fragment (plus commuted and perturbed variants)",
+        text="For each generated expression: expand preserves the value at three generic complex points, the result holds no product or positive integer power of a sum outside function arguments, expanding twice is eq to expanding once, deep=false preserves the value, and on polynomials the result encodes exactly the reference monomial dictionary, with equal polynomials expanding to eq results and unequal ones to non-eq results. Exploration.",
+        note="Rational powers of sums are outside the statement's domain and not generated. KF-C09-01 (non-idempotence on sums to powers <= -2 created during expansion) is a listed known finding with a narrow matcher.",
+        variants=["main"]),
 }
 
 NOT_APPLICABLE = {}
